@@ -95,6 +95,25 @@ CHECKS = {
             'decided; round2float, span_loss, select_edfa uninterpreted here.',
             'gated value graph (SSA with gamma nodes) + rational normal form with min/max lemmas + structural chaining check',
             'DESIGN.md 4 C09'),
+    'C11': ('other',
+            'Necessary structural conditions of routing: both searches rank by the edge attribute that every add_edge sets '
+            'to the length of its source fibre (per-edge value check); the exception-handler / outcome table of the '
+            'constrained search (no path, unsatisfiable include list with and without STRICT hops, first passing path of the '
+            'ordered generator); blocking-reason vocabulary; in-step editing of the parallel route lists and no deletion by a '
+            'snapshot index; shape of ispart / find_reversed_path / explicit_path.',
+            'Optimality and loop-freedom are networkx\'s (trusted); completeness of ispart/explicit_path for every topology is '
+            'not decided.',
+            'handler/outcome table extraction + per-call value check of edge weights + parallel-list edit pairing',
+            'DESIGN.md 4 C11'),
+    'C12': ('other',
+            'Structural legs of the soundness argument of the disjoint-path search: both directions are tested against every '
+            'path of a partial combination (loop nesting, per-combination reset, no early exit) and the extension is guarded '
+            'by the accumulated test; candidate sets only shrink afterwards; an empty set raises DisjunctionError; cut-off 80; '
+            'isdisjoint compares consecutive pairs; groups are de-duplicated on set equality only.',
+            'Completeness (a disjoint solution is found whenever one exists) and consistency across overlapping groups are '
+            'not decided.',
+            'loop-structure / guard-dominance invariant argument over the AST and CFG',
+            'DESIGN.md 4 C12'),
     'C13': ('other',
             'The three feasibility verdicts are extracted from the value graph of the planning functions and compared on '
             'metric (round(min_ch(snr_01nm - total_penalty), 2) of the propagated path\'s receiver), threshold (mode OSNR '
